@@ -9,9 +9,12 @@ import NdnModel.Basic
   `_verify_sig` has an Ed25519 branch.
 
   Abstractions
-  * Names are opaque identifiers (`Nat`); only equality of names, the world lookup, the cache lookup
-    and the schema's signing check look at them.
-  * `Checker.check` (the signing check, property C12) is the black-box predicate `allowed pkt key`.
+  * The model is generic in the type `N` of names (`[DecidableEq N]`): only equality of names, the
+    world lookup, the cache lookup and the schema's signing check look at them.  The driver and the
+    non-vacuity examples use opaque identifiers (`Name = Nat`); `NdnModel/CascadeLvs.lean` instantiates
+    `N` with real names (lists of TLV-encoded components) and `allowed` with the Light VerSec checker.
+  * `Checker.check` (the signing check, property C12) is the parameter `allowed pkt key` of the
+    environment (instantiated with the model of `Checker.check` in `NdnModel/CascadeLvs.lean`).
   * Key bits are `Key = (key type, identity)`; the cryptographic library's answer for "signature of
     `o` verifies under key bits `k`" (after `import_key` succeeded) is the abstract function
     `crypto k o`.  Nothing is assumed about it in the model; the theorems state the ideal-signature
@@ -25,6 +28,7 @@ import NdnModel.Basic
 namespace Ndn.Cascade
 open Ndn
 
+/-- the opaque names of the driver and of the examples -/
 abbrev Name := Nat
 
 /-- what the bytes of a certificate's Content are, for the key importers -/
@@ -46,16 +50,16 @@ structure Key where
     it.  `keyLoc = none` stands for: no SignatureInfo, or no KeyLocator, or an empty KeyLocator name.
     `sig` is an opaque token for the SignatureValue (the driver uses it to carry the ground truth of
     who signed; the model itself never looks at it). -/
-structure Obj where
-  name    : Name
-  keyLoc  : Option Name
+structure Obj (N : Type) where
+  name    : N
+  keyLoc  : Option N
   sigType : SigType
   sig     : Option Nat
   content : Option Key         -- `none`: absent / empty Content
   deriving DecidableEq, Repr
 
-inductive Outcome where
-  | data (c : Obj) | nack | timeout
+inductive Outcome (N : Type) where
+  | data (c : Obj N) | nack | timeout
   deriving Repr
 
 inductive Verdict where
@@ -63,11 +67,11 @@ inductive Verdict where
   deriving DecidableEq, Repr
 
 /-- everything a validator instance is built from, plus the network it talks to -/
-structure Env where
-  allowed    : Name → Name → Bool          -- checker.check(pkt_name, key_name)
-  crypto     : Key → Obj → Bool            -- verify_* of the crypto library
-  world      : Name → Option Outcome       -- what fetching a name yields (`none` = no answer)
-  anchorName : Name
+structure Env (N : Type) where
+  allowed    : N → N → Bool                -- checker.check(pkt_name, key_name)
+  crypto     : Key → Obj N → Bool          -- verify_* of the crypto library
+  world      : N → Option (Outcome N)      -- what fetching a name yields (`none` = no answer)
+  anchorName : N
   anchorKey  : Key
 
 /-- which importer accepts which key bits (`RSA.import_key`, `ECC.import_key` + curve check of the
@@ -81,7 +85,7 @@ def keyFits : SigType → KeyType → Bool
 /-- `CascadeChecker._verify_sig`.  The HMAC branch computes `verify_hmac` and drops the result
     (returns `None`, which every caller treats as false).  Key bits the importer for the declared
     signature type does not accept raise `ValueError` (or its subclass `UnsupportedEccFeature`). -/
-def verifySig (crypto : Key → Obj → Bool) (k : Key) (o : Obj) : Verdict :=
+def verifySig {N : Type} (crypto : Key → Obj N → Bool) (k : Key) (o : Obj N) : Verdict :=
   match o.sigType with
   | .hmac => .reject
   | .rsa => if keyFits .rsa k.kty then (if crypto k o then .accept else .reject) else .raise .valueError
@@ -91,24 +95,32 @@ def verifySig (crypto : Key → Obj → Bool) (k : Key) (o : Obj) : Verdict :=
 
 /-! ### MemoryKeyStorage (one per instance) -/
 
-abbrev Cache := List (Name × Key)
+abbrev Cache (N : Type) := List (N × Key)
 
-def cacheLoad : Cache → Name → Option Key
+section generic
+variable {N : Type} [DecidableEq N]
+
+def cacheLoad : Cache N → N → Option Key
   | [], _ => none
   | (m, k) :: r, n => if m = n then some k else cacheLoad r n
 
 /-- `self._cache[name] = key_bits` -/
-def cacheSave (st : Cache) (n : Name) (k : Key) : Cache := (n, k) :: st
+def cacheSave (st : Cache N) (n : N) (k : Key) : Cache N := (n, k) :: st
 
-structure Res where
+end generic
+
+structure Res (N : Type) where
   verdict : Option Verdict       -- `none`: no verdict (fuel exhausted)
-  cache   : Cache
-  log     : List Name            -- certificate Interests expressed, in order
+  cache   : Cache N
+  log     : List N               -- certificate Interests expressed, in order
   deriving Repr
+
+section generic
+variable {N : Type} [DecidableEq N]
 
 /-- `union_checker(validate_name, cas_checker)` applied to `o`; `cas_checker.next_level` is the same
     union, so the recursion is on this function. -/
-def validate (E : Env) : Nat → Cache → Obj → Res
+def validate (E : Env N) : Nat → Cache N → Obj N → Res N
   | 0, st, _ => ⟨none, st, []⟩
   | fuel + 1, st, o =>
     match o.keyLoc with
@@ -137,22 +149,22 @@ def validate (E : Env) : Nat → Cache → Obj → Res
           | _ => ⟨some .reject, st, [kn]⟩                    -- InterestNack / InterestTimeout caught
 
 /-- one instance validating a sequence of packets (each with its own fuel), keeping its storage -/
-def runHist (E : Env) : Cache → List (Nat × Obj) → Cache
+def runHist (E : Env N) : Cache N → List (Nat × Obj N) → Cache N
   | st, [] => st
   | st, (f, o) :: r => runHist E (validate E f st o).cache r
 
 /-! ### several instances, each with its own storage -/
 
-def setCache (cs : Nat → Cache) (i : Nat) (c : Cache) : Nat → Cache :=
+def setCache (cs : Nat → Cache N) (i : Nat) (c : Cache N) : Nat → Cache N :=
   fun j => if j = i then c else cs j
 
 /-- a history of `(instance, fuel, packet)` steps over instances `envs i`; returns the storages -/
-def runSys (envs : Nat → Env) : (Nat → Cache) → List (Nat × Nat × Obj) → (Nat → Cache)
+def runSys (envs : Nat → Env N) : (Nat → Cache N) → List (Nat × Nat × Obj N) → (Nat → Cache N)
   | cs, [] => cs
   | cs, (i, f, o) :: r => runSys envs (setCache cs i (validate (envs i) f (cs i) o).cache) r
 
 /-- the verdicts and Interest logs of a system history -/
-def traceSys (envs : Nat → Env) : (Nat → Cache) → List (Nat × Nat × Obj) → List (Option Verdict × List Name)
+def traceSys (envs : Nat → Env N) : (Nat → Cache N) → List (Nat × Nat × Obj N) → List (Option Verdict × List N)
   | _, [] => []
   | cs, (i, f, o) :: r =>
     let x := validate (envs i) f (cs i) o
@@ -160,15 +172,17 @@ def traceSys (envs : Nat → Env) : (Nat → Cache) → List (Nat × Nat × Obj)
 
 /-! ### construction (`lvs_validator` up to `CascadeChecker.__init__`) -/
 
-structure Setup where
+end generic
+
+structure Setup (N : Type) where
   userFnsOk : Bool              -- checker.validate_user_fns()
   roots     : List String       -- checker.root_of_trust()
   matched   : List String       -- rule names of every node the anchor's name matches
-  anchor    : Obj
+  anchor    : Obj N
   anchorKey : Key               -- bytes(content) of the anchor
   deriving Repr
 
-def construct (crypto : Key → Obj → Bool) (s : Setup) : Except PyErr (Name × Key) :=
+def construct {N : Type} (crypto : Key → Obj N → Bool) (s : Setup N) : Except PyErr (N × Key) :=
   if s.userFnsOk = false then .error .valueError
   else if s.matched.isEmpty || !(s.roots.all fun r => s.matched.contains r) then .error .valueError
   else match verifySig crypto s.anchorKey s.anchor with
